@@ -38,9 +38,12 @@ public:
       // could have gotten a reference to the node on the freelist.
       marked_ptr expected(guard);
       auto next = guard->next_free().load(std::memory_order_relaxed);
-      // since head is only changed via CAS operations it is sufficient to use relaxed order
-      // for this operation as it is always part of a release-sequence headed by (3)
-      if (head.compare_exchange_weak(expected, next, std::memory_order_relaxed)) {
+      // since head is only changed via CAS operations the store does not need release order - it is always
+      // part of a release-sequence headed by (3). But the load has to be an acquire-load that synchronizes-with
+      // the release-CAS (3): the acquire-load (1) may have returned the value of an _earlier_ push of the very
+      // same node, in which case nothing would order our subsequent (non-atomic) initialization of the node
+      // after the accesses of the thread that has used, destroyed and pushed it in the meantime.
+      if (head.compare_exchange_weak(expected, next, std::memory_order_acquire, std::memory_order_relaxed)) {
         assert((guard->ref_count().load(std::memory_order_relaxed) & RefCountClaimBit) != 0 &&
                "ClaimBit must be set for a node on the free list");
 
